@@ -401,6 +401,84 @@ def r9_identity_floor(idx, r):
                   "(e.g. the last one stored) is not the maximum when a newer object is stored before an older one")
 
 
+def r10_history_siblings(idx, r):
+    """The two history readers (by identity, by location) walk the stored steps the same way: for EVERY step the layout of THAT step is
+    read (indices into the data differ from step to step whenever objects were re-ordered), and a stored column with unset entries is
+    converted back to None in both."""
+    for name in ("getHistories", "getHistoriesByLocation"):
+        f = idx.method(DB + ".Database", name)
+        loop = next((n for n in walk_local(f.node) if isinstance(n, ast.For) and isinstance(n.iter, ast.Call) and dotted(n.iter.func) == "self.genTimeStepGroups"), None)
+        if loop is None or not isinstance(loop.target, ast.Name):
+            raise AnchorMissing(f"Database.{name}: loop over self.genTimeStepGroups(...)")
+        body = ast.Module(body=loop.body, type_ignores=[])
+        lay = [c for c in iter_calls(loop) if (dotted(c.func) or "").endswith("Layout") and any(k.arg == "h5group" and norm(k.value) == loop.target.id for k in c.keywords)]
+        if len(lay) != 1:
+            raise AnchorMissing(f"Database.{name}: Layout(..., h5group={loop.target.id}) inside the step loop")
+        pos = [norm(t) for t, p in path_conditions(body, lay[0]) if p]
+        r.require(not pos, f"{name}:layout-read-for-every-step", f, node=lay[0],
+                  msg=f"the step's layout is only re-read when {pos}: otherwise the previous step's index table is used and, after objects were re-ordered (a shuffle), each object's "
+                      "history entry is another object's value")
+        conv = [s_ for s_ in iter_stores(loop) if isinstance(s_.value, ast.Call) and dotted(s_.value.func) == "replaceNonsenseWithNones" and s_.attr == "data"]
+        okc = False
+        for s_ in conv:
+            conds = {(norm(t), p) for t, p in path_conditions(body, s_.stmt)}
+            okc = okc or {("dataSet.attrs.get('nones', False)", True), ("paramName in h5GroupForType", True)} <= conds or \
+                {("dataSet.attrs.get('nones', False)", True), ("paramName == 'location'", False)} <= conds and any("in h5GroupForType" in c for c, p in conds if p)
+        r.require(okc, f"{name}:unset-entries-become-None", f, node=conv[0].stmt if conv else loop,
+                  msg="a stored column flagged `nones` must be converted back with replaceNonsenseWithNones (as the sibling reader and Database._readParams do): otherwise the history returns "
+                      "the placeholder (NaN / a huge integer) where the object had None")
+    # the interface dispatch and the tracker's own queries
+    g = idx.method(DBI, "getHistories")
+    byloc = [c for c in iter_calls(g.node) if dotted(c.func) == "self.database.getHistoriesByLocation"]
+    ident = [c for c in iter_calls(g.node) if dotted(c.func) == "self.database.getHistories"]
+    ok = len(byloc) == 1 and len(ident) == 1
+    if ok:
+        cb = {(norm(t), p) for t, p in path_conditions(g.node, byloc[0])}
+        ci = {(norm(t), p) for t, p in path_conditions(g.node, ident[0])}
+        ok = ("byLocation", True) in cb and ("byLocation", False) in ci
+    r.require(ok, "interface-dispatch", g, msg="DatabaseInterface.getHistories answers by identity unless byLocation is true")
+    n = 0
+    ht = idx.modules.get("armi.bookkeeping.historyTracker")
+    if ht is None:
+        raise AnchorMissing("armi.bookkeeping.historyTracker")
+    for f in ht.all_funcs():
+        for c in iter_calls(f.node):
+            if call_attr(c) in ("getHistories", "getHistory") and not norm(c.func).startswith("self.database"):
+                n += 1
+                bl = get_arg(c, 3, "byLocation")
+                r.require(bl is None or norm(bl) == "False", f"tracker:{f.qualname}:{call_attr(c)}:by-identity", f, node=c,
+                          msg="the history tracker follows blocks and assemblies (its results are keyed by the object): asking the database by location returns, for an assembly that "
+                              "moved, the values of whatever sat at its present position")
+    if n < 2:
+        raise AnalysisError(f"historyTracker: only {n} database history queries found")
+
+
+def r11_load_preference(idx, r):
+    """Without an explicit file, loadState prefers the database this run is writing over the reload database: a step written by this run
+    must be returned as this run wrote it."""
+    f = idx.method(DBI, "_getLoadDB")
+
+    def ev(n):
+        if isinstance(n, ast.Yield) and n.value is not None:
+            if norm(n.value) == "self._db":
+                return ["own"]
+            if "reloadDBName" in norm(n.value):
+                return ["reload"]
+        return []
+    fl = Flow(f.node, ev).run()
+    own = [n for n in walk_local(f.node) if isinstance(n, ast.Yield) and n.value is not None and norm(n.value) == "self._db"]
+    rel = [n for n in walk_local(f.node) if isinstance(n, ast.Yield) and n.value is not None and "reloadDBName" in norm(n.value)]
+    if not own or not rel:
+        raise AnchorMissing("DatabaseInterface._getLoadDB: yields of self._db and of Database(cs['reloadDBName'])")
+    for y in own:
+        st = fl.state_before(y)
+        r.require(st is not None and st.get("reload", (0, 0))[1] == 0, "own-database-first", f, node=y,
+                  msg="the reload database is offered before the database this run is writing: loadState() of a step this run re-computed returns the earlier run's snapshot")
+    for y in rel:
+        conds = [(norm(t), p) for t, p in path_conditions(f.node, y)]
+        r.require((f"{f.params()[1]} is not None", False) in conds or (f"{f.params()[1]} is None", True) in conds, "reload-only-without-file", f, node=y, msg="the reload database is a fall-back only when no file was named")
+
+
 def run(idx, chk):
     chk.explanation = (
         "C06: writers of the successfulCompletion flag and callers that can pass a true value; the chain Case.run -> Operator.__exit__ -> "
@@ -424,3 +502,7 @@ def run(idx, chk):
     chk.run_rule("R06.7", "every name used in safeMove/safeCopy and the database modules resolves", lambda r: r7_names(idx, r), floor=60, necessary="a NameError on the file-move path loses the database")
     chk.run_rule("R06.9", "after a load the global serial counter is at least the maximum serial number of the whole layout", lambda r: r9_identity_floor(idx, r), floor=1,
                  necessary="'the same object, matched by identity': identities handed out after a load must not collide with stored ones")
+    chk.run_rule("R06.10", "both history readers read every step's own layout and turn stored unset markers back into None; the tracker queries by identity", lambda r: r10_history_siblings(idx, r), floor=7,
+                 necessary="a parameter history returns for each step the value (or None/default if unset) that the same object had at that step")
+    chk.run_rule("R06.11", "without a named file, the database being written is preferred over the reload database", lambda r: r11_load_preference(idx, r), floor=2,
+                 necessary="loading a snapshot returns the state as of that write")
